@@ -16,7 +16,7 @@ import procutil as pu  # noqa: E402
 NAMES = pu.FLAG_NAMES
 BULLET = "・ "
 TRIPLE_SUBSET_QUICK = ["P2SH", "SIGPUSHONLY", "MINIMALDATA", "DISCOURAGE_UPGRADABLE_NOPS", "NULLFAIL", "DISCOURAGE_UPGRADABLE_PUBKEYTYPE"]
-TRIPLE_SUBSET_THOROUGH = TRIPLE_SUBSET_QUICK + ["STRICTENC", "CLEANSTACK", "WITNESS", "TAPROOT"]
+TRIPLE_SUBSET_THOROUGH = list(NAMES)   # every ordered triple over all 21 names: 42^3
 
 
 def u8(s):
@@ -139,7 +139,7 @@ def malformed_lists():
     out += [("empty-element", x) for x in (",", ",,", "+P2SH,,", ",,+P2SH")]
     out += [("wrong-separator", x) for x in ("+P2SH;-DERSIG", "+P2SH -DERSIG", "+P2SH|-DERSIG", "+P2SH, -DERSIG", "+P2SH:-DERSIG", "+P2SH\t-DERSIG")]
     out += [("mixed-case", x) for x in ("+P2sh", "+Minimaldata", "-nullFail")]
-    for n in (127, 128, 129, 200):
+    for n in (126, 127, 128, 129, 200):     # 126 is the longest name whose element (+sign, +NUL) still fits 128 bytes
         out += [("long-name", "+" + "A" * n), ("long-name", "-" + "Z" * n), ("long-name", "+P2SH,+" + "A" * n),
                 ("long-name", "+P2SH" + "X" * (n - 4)), ("long-name", "+" + "A" * n + ",-P2SH")]
     return out
@@ -154,7 +154,8 @@ def check_malformed(bdir, cwd, cls, lst, exe_dir=None, tag=""):
     san = ("AddressSanitizer" in r["err"]) or ("runtime error:" in r["err"])
     if pu.crash_class(r) or san:
         key = "crash:svf_parse_flags-long-name" if cls == "long-name" else "crash:svf_parse_flags:" + cls
-        rep = [l for l in r["err"].split("\n") if "ERROR" in l or "runtime error" in l or "terminate" in l]
+        import re
+        rep = [re.sub(r"\x1b\[[0-9;]*m", "", l) for l in r["err"].split("\n") if "ERROR" in l or "runtime error" in l or "terminate" in l]
         return "crash", [(key, "--modify-flags=%s%s: %s %s" % (shown, tag, ("terminated by " + r["sig"]) if r["sig"] else "exit %d" % r["rc"],
                                                                  (rep[0][:200] if rep else "")), rp)]
     listing = parse_listing(r["err"], "resulting flags:")
@@ -382,7 +383,7 @@ def run(ctx):
         "exhaustive": not (hist.get("skipped-after-hangs", 0) or mh.get("skipped-after-hangs", 0)),
         "skipped_after_hangs": hist.get("skipped-after-hangs", 0) + mh.get("skipped-after-hangs", 0),
         "bounds": dict(bounds, malformed_lists=len(mal), malformed_classes=sorted({c for c, _ in mal}),
-                       long_name_lengths=[127, 128, 129, 200], asan_long_name_runs=bool(asan_dir),
+                       long_name_lengths=[126, 127, 128, 129, 200], asan_long_name_runs=bool(asan_dir),
                        default_flags_runs=n, probes=[p["flag"] for p in prs]),
         "wellformed_lists": len(items), "wellformed_outcomes": hist, "distinct_resulting_flag_sets": len(sets),
         "malformed_outcomes": dict(sorted(mh.items())), "probe_reference_outcomes": probe_out,
@@ -398,7 +399,7 @@ def run(ctx):
                     "the empty list (--modify-flags=) is not classified: the statement does not say whether it is malformed",
                     "a list is malformed when an element lacks a sign, is empty, has blanks, a wrong separator, or a name that is not byte-for-byte one of the 21 (case-sensitive)",
                     "behavioural probes exist for the flags reachable without a full spend (no P2SH/WITNESS/CLEANSTACK/SIGPUSHONLY/taproot-only flags); DERSIG and LOW_S are probed with the sibling encoding flags switched off in the same list",
-                    "the 128-byte buffer of svf_parse_flags is exercised with 127/128/129/200-character names; silent overflow without a crash is only visible to the sanitizer build (C15)",
+                    "the 128-byte buffer of svf_parse_flags is exercised with 126/127/128/129/200-character names (126 fits, 127 overflows by the terminator); silent overflow without a crash is only visible to the sanitizer build (C15)",
                 ],
                 summary="%d well-formed lists (%d distinct sets), %d malformed, %d probes, %d process runs" % (len(items), len(sets), len(mal), 2 * len(prs), nproc),
                 infra_error="; ".join(vac) if (vac and not V.d) else None)
